@@ -85,6 +85,16 @@ def check(run):
         gamma = random_symmetric(rng, m, psd=(n % 2 == 0))
         pts = np.array([[core.snap(rng.uniform(-2, 2), 10) for _ in range(3)] for _ in range(rng.randint(1, 4 if quick else 20))])
         one_case(run, specs, t, gamma, pts, a, b)
+    from checks.common import zero_diag_symmetric
+    for n, (a, b) in enumerate([(1, 0), (0.5, 0.75), (0, -2.0), (0.3, 1.0)] if quick else params[:8]):
+        specs = random_basis(rng, 1, 2, lmax=2, exp_hi=10.0)
+        nb = sum(s.size for s in specs)
+        t = random_transform(rng, nb) if n % 2 == 0 else None
+        m = nb if t is None else t.shape[0]
+        gamma = zero_diag_symmetric(rng, m, nzero=1 + n % 2)
+        pts = np.array([[core.snap(rng.uniform(-2, 2), 10) for _ in range(3)] for _ in range(3)])
+        one_case(run, specs, t, gamma, pts, a, b)
+        run.count("zero-diagonal density matrix")
     representation_cases(run)
 
 
